@@ -17,7 +17,7 @@ SPECS = {}
 SPECS["C05"] = {
     "level": "model_checking",
     "groups": [dict(LIBGO, entries=[
-        {"name": "VerifC05_StompBurst", "native": False, "quick": {"params": [0, 1], "flags": ["-preempt", "1"], "procs": 2}, "thorough": {"params": [0, 1, 2], "flags": ["-preempt", "2", "-par", "4"], "procs": 3}},
+        {"name": "VerifC05_StompBurst", "native": False, "quick": {"params": [0, 1], "flags": ["-preempt", "1"], "procs": 2}, "thorough": {"params": [0, 1, 2], "flags": ["-preempt", "1", "-par", "4"], "procs": 3}},
         {"name": "VerifC05_FramePath", "flags": ["-unwind-violation"], "quick": {"params": lengths(14)}, "thorough": {"params": lengths(22)}, "expect_reach": ["end", "parsed", "rejected"]},
         {"name": "VerifC05_UnmarshalFrame", "flags": ["-unwind-violation"], "quick": {"params": lengths(16)}, "thorough": {"params": lengths(24)}, "expect_reach": ["end", "parsed", "rejected"]},
         {"name": "VerifC05_AddHeaders", "flags": ["-unwind-violation"], "quick": {"params": lengths(16)}, "thorough": {"params": lengths(24)}, "expect_reach": ["end", "parsed", "rejected"]},
@@ -405,7 +405,7 @@ _MORE4 = {
     "C02": " Session 4: a typedef NAME declared in both the including and the included file with different base types (i32 / i64; struct Tagged, c02_base.Ref) in the recursive run; a catalogue program the compiler REJECTS with its own diagnostic twice in a row is a reproduced violation (the catalogue is valid IDL); union fields with declared defaults are in the catalogue (open finding F25: the value equal to the default is rejected by the generated Read).",
     "C03": " Session 4: VerifC03_AdapterCalls: two goroutines call through one generated client over the REAL adapter transport (framed stream, read loop, registry) with a peer that answers one by one or both replies back to back, the second reply no longer than the first: each caller gets the value for its own argument or TIMED_OUT, never another call's value (race monitor on).",
     "C04": " Session 4: VerifC04_LargeBlock: one header value of 250 / 1030 / 4100 bytes (thorough: also 1010, 4090, 40000 - below the engine's 65536-element allocation clamp) with a 2-byte symbolic tail next to a small header: layout, stream reader over a transport whose RemainingBytes() is an ARBITRARY 64-bit value (buffered and compressing transports under-report), frame reader.",
-    "C05": " Session 4: VerifC05_StompBurst: a burst of 3..4 (thorough 5) well-formed STOMP messages over a connection model shaped like go-stomp (ONE process loop serving the bounded write channel - acknowledgements - and the inbound frames with a blocking hand-over to the bounded subscription channel; capacities 1 instead of 20/20/16): every message handled and acknowledged, no deadlock.",
+    "C05": " Session 4: VerifC05_StompBurst: a burst of 3..4 (thorough 5, same delay bound 1: bound 2 did not finish in 15 min) well-formed STOMP messages over a connection model shaped like go-stomp (ONE process loop serving the bounded write channel - acknowledgements - and the inbound frames with a blocking hand-over to the bounded subscription channel; capacities 1 instead of 20/20/16): every message handled and acknowledged, no deadlock.",
     "C06": " Session 4: VerifC06_ReopenedStream: the inbound stream ends after ANY number of bytes of a frame (inside the size prefix or the body), optionally after a complete exchange; the transport is reopened and the response to a fresh request - the first bytes of the new stream - is delivered.",
     "C07": " Session 4: in VerifC07_NatsPubSub the NATS model treats SUB as asynchronous (the server knows a subscription by itself at some point or at the latest after a Flush round trip on that connection) and the publisher as ANOTHER connection: every message published after Subscribe returned must arrive.",
     "C08": " Session 4: delimiters containing '%' ('%', thorough also '-%-'); java.util.Formatter is modelled exactly in the Java extractor (%s, %%, anything else throws). Found and fixed F27.",
